@@ -85,6 +85,20 @@ reg("C08", "fault_enumeration",
     "DESIGN.md section 3, C08")
 
 
+reg("C05", "exploration",
+    "Generated-input search at the sender seam: every datagram the client emits for the 12 API operations (and the implied "
+    "SNMPv3 discovery probe) is decoded by an independent strict BER/SNMP decoder and compared field by field with the "
+    "intended request -- version, community or v3 header / USM parameters / context, PDU tag, Integer32 request-id (the wall "
+    "clock is driven over 0..2^31-1), zero error fields or the given non-repeaters/max-repetitions, the caller's OIDs in order "
+    "(2..128 arcs, sub-identifiers up to 2^32-1) bound to NULL or to SET values of every type whose independent decoding "
+    "equals the caller's value; v3 requests must verify under the independent RFC 3414 implementation. A deterministic sweep "
+    "drives every total datagram length through 127/128/255/256. One case in eight runs on a re-configured client.",
+    "Trusts lib/vber.py (strict decoder) and lib/vagent.py (USM verification); non-minimal but valid BER is accepted; for walks "
+    "only the first request's OID multiset is fixed by the caller.",
+    "Hypothesis property-based testing with an independent decoder as oracle + deterministic length sweep",
+    "DESIGN.md section 3, C05")
+
+
 def main():
     present = sorted(os.path.basename(p)[:3].upper()
                      for p in glob.glob(os.path.join(VERIF, "checks", "c[0-9][0-9]_*.py")))
